@@ -222,7 +222,10 @@ def parse(
     file.seek(initial_file_offset)
 
     # overwrite existing headers using response_headers
-    result["headers"].update(response_headers or {})
+    # (header names are case-insensitive; all lookups use lowercase keys)
+    result["headers"].update(
+        {k.lower(): v for k, v in (response_headers or {}).items()}
+    )
 
     try:
         _parse_file_inplace(
